@@ -234,9 +234,12 @@ def o123(ctx):
                         ("highpass", [("fourier_pixels", "fourier_pixels"), ("target_resolution", "target_resolution"), ("pixel_size", "pixel_size")])):
         mq, fq = ctx.prog.func(CMAP + name)
         calls = [n for n in ast.walk(fq) if isinstance(n, ast.Call) and ctx.prog.resolve(mq, n.func) == "cryocat.cryomap.get_filter_radius"]
+        from sa import plumbing as _pl2
+        _, f_gfr2 = ctx.prog.func(CMAP + "get_filter_radius")
         for c in calls:
+            bound_, _, _ = _pl2.bind_call(c, f_gfr2, False)
             for kw, src in pairs:
-                a = kwarg(c, kw)
+                a = bound_.get(kw)
                 ctx.count(1)
                 if not (isinstance(a, ast.Name) and a.id == src):
                     ctx.finding(CMAP + name, c, f"{name} must pass its {src} on to get_filter_radius({kw}=...)", c, mq)
@@ -244,10 +247,15 @@ def o123(ctx):
     calls = [n for n in ast.walk(fq) if isinstance(n, ast.Call) and ctx.prog.resolve(mq, n.func) == "cryocat.cryomap.get_filter_radius"]
     want_sets = [{"fourier_pixels": "lp_fourier_pixels", "target_resolution": "lp_target_resolution", "pixel_size": "pixel_size"},
                  {"fourier_pixels": "hp_fourier_pixels", "target_resolution": "hp_target_resolution", "pixel_size": "pixel_size"}]
-    got_sets = [{k.arg: (k.value.id if isinstance(k.value, ast.Name) else None) for k in c.keywords} for c in calls]
+    from sa import plumbing as _pl
+    _, f_gfr = ctx.prog.func(CMAP + "get_filter_radius")
+    got_sets = []
+    for c in calls:  # bound to the callee's signature: positional and keyword spellings alike, other options ignored
+        b_, _, _ = _pl.bind_call(c, f_gfr, False)
+        got_sets.append({k_: (v_.id if isinstance(v_, ast.Name) else None) for k_, v_ in b_.items()})
     ctx.count(len(calls))
     for w in want_sets:
-        if w not in got_sets:
+        if not any(all(g_.get(k_) == v_ for k_, v_ in w.items()) for g_ in got_sets):
             ctx.finding(CMAP + "bandpass", "cutoff plumbing", f"bandpass must compute a radius from {w}", fq, mq, found=got_sets)
 
 
